@@ -426,6 +426,20 @@ def check_environment(src_root, problems, summary):
             if decos != ['implementer(ITraverser)'] or cls.bases or cls.keywords:
                 problems.append('ResourceTreeTraverser: decorators %s / bases / keywords changed' % decos)
             summary['pyramid/traversal.py:class ResourceTreeTraverser (body)'] = members
+            # a traverser keeps no state across calls: __call__ never writes to self (attribute store, setattr,
+            # __dict__, vars), declares no global / nonlocal, and has no mutable default argument
+            for meth in [st for st in cls.body if isinstance(st, ast.FunctionDef) and st.name == '__call__']:
+                for n in ast.walk(meth):
+                    if isinstance(n, ast.Attribute) and isinstance(n.ctx, (ast.Store, ast.Del)):
+                        problems.append('ResourceTreeTraverser.__call__ stores an attribute: %s' % ast.unparse(n))
+                    if isinstance(n, (ast.Global, ast.Nonlocal)):
+                        problems.append('ResourceTreeTraverser.__call__ declares global / nonlocal names')
+                    if isinstance(n, ast.Call) and ast.unparse(n.func) in ('setattr', 'delattr', 'vars', 'object.__setattr__'):
+                        problems.append('ResourceTreeTraverser.__call__ calls %s' % ast.unparse(n.func))
+                    if isinstance(n, ast.Attribute) and n.attr == '__dict__' and ast.unparse(n.value) == 'self':
+                        problems.append('ResourceTreeTraverser.__call__ touches self.__dict__')
+                if meth.args.defaults or meth.args.kw_defaults:
+                    problems.append('ResourceTreeTraverser.__call__ has default arguments')
     except Exception as e:
         problems.append('environment facts of traversal.py unrecognised: %r' % e)
     try:
